@@ -254,7 +254,7 @@ def run(ck):
         conv = (lambda a: torch.tensor(a)) if as_tensor else (lambda a: a.copy())
         args = [conv(X), conv(y), conv(Xv), conv(yv)]
         Q = conv(xr.make_X('random', 9, d, nr))
-        desc = dict(i=i, kernel=kern, task=task, tensors=as_tensor, n_threads=n_threads, soft=soft, n=n, L=L, seed=ck.seed)
+        desc = dict(i=i, kernel=kern, task=task, tensors=as_tensor, n_threads=n_threads, soft=soft, n=n, L=L, split_method=(None if i % 3 == 0 else ['pca', 'random_pca', 'linear', 'rf_criterion', 'random_agop_on_subset', 'top_pc_agop_on_subset'][(i // 3) % 6]), seed=ck.seed)
         init_env = [None, 'max_split_size_mb:64'][i % 2]
         if init_env is None:
             os.environ.pop(ENV, None)
@@ -267,7 +267,9 @@ def run(ck):
         model = xr.xRFM(rfm_params=xr.default_rfm_params(kernel=kern, iters=(0 if (i // 5) % 2 == 0 and i % 5 in (0, 2) else 1), diag=bool(i % 2), reg=1e-2, bandwidth=3.0,
                                                          bandwidth_mode='adaptive' if (i % 3 == 0 and kern != 'sum_power_laplace') else 'constant', **extra),
                         max_leaf_size=L, verbose=False, tuning_metric=metric, n_threads=n_threads, split_temperature=soft,
-                        use_temperature_tuning=(soft is None and i % 2 == 0), callback=cb, refill_size=15, temp_tuning_space=[0.0, 0.5])
+                        use_temperature_tuning=(soft is None and i % 2 == 0), callback=cb, refill_size=15, temp_tuning_space=[0.0, 0.5],
+                        # every split method that looks at the node's own feature matrix in turn (at the root that matrix is the caller's tensor)
+                        **({} if i % 3 == 0 else dict(split_method=['pca', 'random_pca', 'linear', 'rf_criterion', 'random_agop_on_subset', 'top_pc_agop_on_subset'][(i // 3) % 6])))
 
         if (i // 5) % 2 == 0 and i % 5 in (0, 2):
             # plain kernel ridge leaves: no AGOP is ever computed, the leaf keeps M = None and the transform returns its argument itself
@@ -297,6 +299,9 @@ def run(ck):
             ck.count(f'call={call}')
             names = ['X', 'y', 'X_val', 'y_val', 'query'][:len(objs)] if call == 'fit' else ['query']
             for nm, b, a in zip(names, before, after):
+                if b != a and b[0] == a[0] and b[2:] == a[2:]:
+                    ck.notes.append(f'{call}: version counter of the caller\'s {nm} went {b[1]}->{a[1]} with identical bytes (not a violation of the property) on {desc}'[:300])
+                    continue
                 if b != a:
                     ck.violation(f'{call} modified the caller\'s {nm} ({"tensor" if b[1] is not None else "array"}; bytes changed: {b[0] != a[0]}, _version {b[1]}->{a[1]}) on {desc}',
                                  dict(desc, call=call, which=nm), key=json.dumps(dict(site='caller-data', call=call, which=nm)))
